@@ -470,14 +470,16 @@ def c07(tier, seed, work):
 def c09(tier, seed, work):
     rep = Report("C09", tier, seed)
     thorough = tier == "thorough"
-    ev = 1 if thorough else 6
-    fuzz_stage(rep, work, "grammar-mem", {}, ["mem"], ["rich"], every=ev)
-    fuzz_stage(rep, work, "grammar-fs-bolt", {}, ["multimem", "bolt"], ["rich"], every=ev * 2)
-    fuzz_stage(rep, work, "grammar-options", {}, ["mem"], ["rich"], opts="hostbucket", every=ev * 4)
-    fuzz_stage(rep, work, "grammar-auto", {}, ["mem", "multimem"], ["plain"], opts="auto", every=ev * 4)
-    fuzz_stage(rep, work, "grammar-noversioning", {}, ["mem"], ["rich"], opts="noversioning", every=ev * 4)
+    g = dict(FullPaths=thorough)
+    ev = 1 if thorough else 8
+    # every request of the grammar against the versioned store with delete markers, a deleted current version and pending uploads
+    fuzz_stage(rep, work, "grammar-mem", g, ["mem"], ["rich"], every=1)
+    fuzz_stage(rep, work, "grammar-fs-bolt", g, ["multimem", "bolt"], ["rich"], every=ev)
+    fuzz_stage(rep, work, "grammar-options", g, ["mem"], ["rich"], opts="hostbucket", every=ev * 2)
+    fuzz_stage(rep, work, "grammar-auto", g, ["mem", "multimem"], ["plain"], opts="auto", every=ev * 2)
+    fuzz_stage(rep, work, "grammar-noversioning", g, ["mem"], ["rich"], opts="noversioning", every=ev * 2)
     if thorough:
-        fuzz_stage(rep, work, "grammar-os", {}, ["multios", "singlemem"], ["rich"], every=2)
+        fuzz_stage(rep, work, "grammar-os", g, ["multios", "singlemem"], ["rich"], every=2)
     rep.assumptions += [
         "requests are generated from the abstract grammar (method x path shape x routed sub-resources, one further dimension "
         "varied per request); coverage-guided byte-level fuzzing is not part of this check",
